@@ -10,10 +10,11 @@ def _attr_key(attr):
 
     Attributes have a namespace that can be either ``None`` or a string. We
     can't compare the two because they're different types, so we convert
-    ``None`` to an empty string first.
+    ``None`` to an empty string first. An attribute without a namespace
+    sorts before one whose namespace is the empty string.
 
     """
-    return (attr[0][0] or ''), attr[0][1]
+    return (attr[0][0] or ''), attr[0][1], attr[0][0] is not None
 
 
 class Filter(base.Filter):
